@@ -6,12 +6,13 @@ _TEXT_WR = ("writer part: the control of carquet's writer pipeline (page builder
             "PAR1 ++ data ++ footer ++ len ++ PAR1, and the row groups / column chunks of the footer describe consecutive, gap-free, "
             "non-overlapping byte ranges from offset 4 to the start of the footer with sizes that add up (C05_chunks_tile); the data region is, chunk by chunk, a "
             "concatenation of non-empty pages header(|body|, |stored|, crc32(stored), rows, stats) ++ stored with stored = compress(body), and each chunk's "
-            "num_values / total_compressed_size / total_uncompressed_size are the sums over its pages (C05_pages_chain). Read-back equality (C01), three-mode agreement (C03) and "
+            "num_values / total_compressed_size / total_uncompressed_size are the sums over its pages (C05_pages_chain); when every call returned OK the page contents, concatenated chunk by chunk, are exactly the table "
+            "the history denotes (tableOf, defined from the batches alone) and every page body is rep levels ++ def levels ++ PLAIN values of its content (C05_written_table). Read-back equality (C01), three-mode agreement (C03) and "
             "write-twice determinism (C05) are evaluated on the real code for every generated history.")
 PART = {
   "C05": dict(
     imports=["Carquet.Properties.C05.Writer"],
-    obligations=["Carquet.Properties.C05.C05_envelope", "Carquet.Properties.C05.C05_envelope_real", "Carquet.Properties.C05.C05_chunks_tile", "Carquet.Properties.C05.C05_pages_chain"],
+    obligations=["Carquet.Properties.C05.C05_envelope", "Carquet.Properties.C05.C05_envelope_real", "Carquet.Properties.C05.C05_chunks_tile", "Carquet.Properties.C05.C05_pages_chain", "Carquet.Properties.C05.C05_written_table"],
     components=["file", "c05sink"],
     fidelity={"Impl.Writer": "exact (control), byte-exact whole files through Impl.FileReal for codecs 0/1/5/7",
               "GZIP/ZSTD pages": "not modelled byte-for-byte (zlib/libzstd); statuses only"},
